@@ -397,6 +397,82 @@ def min_on_off_history(run, rng, cls, on_time, off_time, nsteps, cov=False):
     run.count("min_on_off_histories")
 
 
+def multi_object_min_on_off(run, rng, nobj, nsteps):
+    """several binary objects with different minimum times in one process (one scheduler): every object's hold is released at
+    its own time whatever the others' timers are doing"""
+    CLOCK.reset()
+    objs = []
+    for i in range(nobj):
+        cls = rng.choice([LO.BinaryOutputCmdObject, LO.BinaryValueCmdObject])
+        sub = registered(cls)
+        dt = datatype_of(sub)
+        obj = sub(objectIdentifier=(sub.objectType, 10 + i), objectName="m%d" % i)
+        on_t, off_t = rng.choice([1, 2, 4, 9, 9, 0]), rng.choice([2, 5, 8, 8, 0])
+        obj.minimumOnTime = on_t
+        obj.minimumOffTime = off_t
+        objs.append({"obj": obj, "dt": dt, "on": on_t, "off": off_t, "ref": Ref(norm(dt, obj.relinquishDefault)), "hold": None})
+    wit = {"objects": [(o["obj"].objectIdentifier[0], o["on"], o["off"]) for o in objs]}
+    log = []
+
+    def change(o, old, new, now):
+        if old == new:
+            return
+        delay = o["on"] if new == 1 else o["off"]
+        if delay:
+            o["ref"].slots[6] = new
+            o["hold"] = now + delay
+
+    def advance_refs(to):
+        for o in objs:
+            while o["hold"] is not None and o["hold"] <= to:
+                t = o["hold"]
+                o["hold"] = None
+                old = o["ref"].pv()
+                o["ref"].slots[6] = None
+                change(o, old, o["ref"].pv(), t)
+
+    for k in range(nsteps):
+        if k < nobj or rng.random() < 0.6:
+            # (to begin with every object is switched once, so that several holds are pending together)
+            o = objs[k] if k < nobj else rng.choice(objs)
+            prio = rng.choice([1, 3, 5, 7, 8, 16, None])
+            v = rng.choice(["active", "inactive", None]) if k >= nobj else "active"
+            holding = [x for x in objs if x["hold"] is not None]
+            if k >= nobj and holding and rng.random() < 0.6:
+                # an object whose hold is pending is forced the other way from above the hold: its timer is re-armed while the
+                # timers of the others are pending
+                o = rng.choice(holding)
+                prio = rng.choice([1, 3, 5])
+                v = "inactive" if o["ref"].pv() == 1 else "active"
+            old = o["ref"].pv()
+            o["ref"].slots[prio if prio is not None else 16] = None if v is None else norm(o["dt"], v)
+            change(o, old, o["ref"].pv(), CLOCK.now)
+            try:
+                o["obj"].WriteProperty("presentValue", () if v is None else v, priority=prio)
+            except Exception as err:
+                run.violation("command-raised/" + type(err).__name__, dict(wit, op=repr((objs.index(o), prio, v)), error=repr(err)[:100]))
+                return
+            log.append((round(CLOCK.now - CLOCK.START, 2), objs.index(o), prio, v))
+        else:
+            d = rng.choice([0.5, 1.0, 1.0, 2.0, 3.0, 4.5, 10.0])
+            try:
+                CLOCK.drive(duration=d, max_steps=100000)
+            except StepBudgetExceeded as err:
+                run.violation("minimum-on-off-timer-spins", dict(wit, error=str(err)))
+                return
+            advance_refs(CLOCK.now)
+            log.append((round(CLOCK.now - CLOCK.START, 2), "advance", d))
+        for i, o in enumerate(objs):
+            run.count("comparisons")
+            got = norm(o["dt"], o["obj"].presentValue)
+            isnull, s6 = slot_value(o["dt"], o["obj"].priorityArray[6])
+            if s6 != o["ref"].slots[6] or got != o["ref"].pv():
+                run.violation("minimum-time-not-held-or-not-released/several-objects",
+                              dict(wit, object=i, step=k, log=log[-8:], slot6=s6, expected_slot6=o["ref"].slots[6], present_value=got, expected=o["ref"].pv()))
+                return
+    run.count("multi_object_histories")
+
+
 def main():
     run = Run("C17", "exploration", RULE, assumptions=[
         "the ...CmdObject classes are used through a subclass passed to register_object_type (as the samples do); "
@@ -473,6 +549,10 @@ def main():
                 if (on_t or off_t) and (thorough or (on_t, off_t) in ((1, 2), (3, 5), (10, 0), (0, 10), (3, 10))):
                     run.case(("minonoff-cov", cls.__name__, on_t, off_t, rep, run.shard[0]), sample=None)
                     min_on_off_history(run, rng, cls, on_t, off_t, 80, cov=True)
+    # (4) several binary objects with their own minimum times sharing the scheduler
+    for rep in range((6000 if thorough else 250) // (run.shard[1] if thorough else 1) + 1):
+        run.case(("multi-minonoff", run.shard[0], rep), sample=None)
+        multi_object_min_on_off(run, rng, rng.choice([3, 4, 6]), 60)
     run.exhaustive = True
     run.finish(require=("histories", "comparisons", "commands_applied", "invalid_priorities_tried", "wire_reads", "min_on_off_histories",
                                    "undefined_enumeration_values_tried", "cov_subscribes", "cov_cancellations"))
